@@ -107,6 +107,17 @@ CHECKS = {
         "trajectories produced by the three engines.",
         "Sample times strictly increasing. Queries converted from another unit are kept 1e-9 away from "
         "samples and mid-points (skipped and counted otherwise)."),
+    "C19": (
+        "Hypothesis grammar-based generation of reaction equations and constants; oracle computed from the "
+        "generating spec; must-raise with accepted fault-free twin",
+        "Exploration. Equations are rendered from a stoichiometry spec (arbitrary label alphabet, "
+        "coefficients 0..9, repeats, empty sides, arbitrary blanks) or passed as two dicts; "
+        "ssto/psto/dsto/order/rorder/substrates/products and the print-parse round trip are compared with "
+        "the summed coefficients of the spec; constants of orders 0..8 in all unit systems are compared in SI "
+        "and any other dimension must raise; split() and K are compared per environment; invalid networks "
+        "must raise while their valid twin is accepted.",
+        "Labels are drawn without Unicode white space, '+' and '->'. K facet restricted to mild unit systems "
+        "and orders <= 4 (float conversion factors stay finite)."),
 }
 
 NOT_BUILT = "check not built yet in this working session (planned; DESIGN.md section 4)"
